@@ -275,6 +275,14 @@ int main(int argc, char** argv) {
 	Trace trace;
 	Lcg cbRng(12345 + scenarioSeed * 7919), drv(777 + scenarioSeed * 104729);
 
+	// the public, feature-neutral name helper: every enumerator of ffsm2::Method has the same name under every switch
+	for (unsigned k = 0; k < static_cast<unsigned>(ffsm2::Method::COUNT); ++k) {
+		const char* const name = ffsm2::methodName(static_cast<ffsm2::Method>(k));
+		unsigned sum = 0, len = 0;
+		if (name) for (const char* q = name; *q; ++q) { sum = sum * 31 + static_cast<unsigned char>(*q); ++len; }
+		trace.add("mnm", k, name ? len : 255, sum);
+	}
+
 	{
 		Ctx ctx = { &trace, &cbRng, 1 };
 		FSM1::Instance m(ctx);
